@@ -109,6 +109,18 @@ def run(ctx):
                 s['cfg']['B'] = rng.choice([256, 300, 517])
                 s['Q'] = s['Q'][:2]
                 s['cells'] = s['cells'][:2]
+            if _ % 20 == 11:
+                # a CSC query with more than 100 stored values, converted under a tiny memory budget (several blocks)
+                while True:
+                    tj_ = maptrace.random_tree(rng, 2, 5, 3)
+                    if len(tj_['nodes'][0]) > 1:
+                        break
+                s = maptrace.gen_scenario(rng, tree=tj_, ncell=40, G=6, vmax=4,
+                                          cfg={'enc': 'csc', 'max_gb': 1e-7, 'chunk': 13, 'P': 2, 'B': 3,
+                                               'drop': None, 'flatten': False, 'minm': 1})
+                s['qgenes'] = rng.sample(range(1, 7), 6)
+                s['Q'] = [[rng.randint(1, 4) for _ in range(6)] for _ in s['cells']]     # every value stored
+                s['markers']['0/0'] = [1, 2, 3, 4, 5, 6]
             if _ % 4 == 1:
                 # a bootstrap factor per level (level 0 = the root) instead of the global one
                 s['cfg']['flookup'] = {str(l): [rng.randint(1, 10), 10] for l in [0] + s['tree']['hier'][:-1]}
